@@ -18,6 +18,7 @@ Binding:
 import json
 import os
 import random
+import re
 import subprocess
 import time
 
@@ -777,6 +778,11 @@ def run(chk):
         for kind, name, detail in r["fails"]:
             b = c["line"]
             key = sort_key(b, "e2e") if kind == "order" else "C05:sort:e2e:%s%s" % (kind, ":with-sort-index" if c["sortindex"] else "")
+            if (kind == "order" and c["sortindex"] and not b["spec"][0]["asc"] and re.match(r"sort \d+ ", name)
+                    and any(r[0]["k"] == "z" for r in b["tbl"])):
+                # the sort index lists records without the field last; read in reverse for a descending sort they come
+                # first and the searcher's early exit at the limit keeps them (was masked by the duplicate-records finding)
+                key = "C05:sort:e2e:sort-index-desc-limit-keeps-missing-values"
             if key in seen:
                 continue
             seen.add(key)
